@@ -47,11 +47,14 @@ pub struct CommPlan {
     pub input_len: usize,
     pub progs: Vec<String>,
     pub reads: Vec<ReadStep>,
+    /// drive the thread-based communicator (cfg(windows) in the source) instead
+    #[serde(default)]
+    pub thread_variant: bool,
 }
 
 impl Default for CommPlan {
     fn default() -> Self {
-        CommPlan { api: CommApi::Bytes, stdin: StreamCfg::Inherit, stdout: StreamCfg::Pipe, stderr: StreamCfg::Inherit, input_len: 0, progs: vec![], reads: vec![] }
+        CommPlan { api: CommApi::Bytes, stdin: StreamCfg::Inherit, stdout: StreamCfg::Pipe, stderr: StreamCfg::Inherit, input_len: 0, progs: vec![], reads: vec![], thread_variant: false }
     }
 }
 
@@ -328,6 +331,21 @@ pub fn generate(prop: &str, rng: &mut Rng, plan: &mut Plan, index: u64) {
         plan.add_program(&name, ops);
         c.progs.push(name);
     }
+    // the thread-based communicator: every 5th run, driven through communicate_start-like reads
+    if index % 5 == 4 && !pipeline {
+        c.thread_variant = true;
+        c.api = CommApi::Start;
+        for s in [&mut c.stdin, &mut c.stdout, &mut c.stderr] {
+            if *s != StreamCfg::Pipe {
+                *s = StreamCfg::Inherit;
+            }
+        }
+        if c.stdout != StreamCfg::Pipe && c.stderr != StreamCfg::Pipe {
+            c.stdout = StreamCfg::Pipe;
+        }
+        // no injected short I/O here (std's write_all/ read loops handle them; the helper threads are not library-call context)
+        plan.knobs.faults.child_death = None;
+    }
     // reads
     let starty = matches!(c.api, CommApi::Start | CommApi::ExecCommunicate | CommApi::PipeCommunicate);
     if starty {
@@ -453,6 +471,7 @@ struct Model {
     nontrivial: bool,
     limit_cut: bool,
     deadline_hot: bool,
+    thread_variant: bool,
 }
 
 fn redir(cfg: StreamCfg, label: &str) -> Redirection {
@@ -532,6 +551,17 @@ impl Model {
         }
     }
 
+    /// thread-based variant: at a quiescent point (read() returned, every helper blocked or done)
+    /// the input has been delivered completely but the child's stdin is still open
+    fn check_eof_late_now(&self) {
+        if let Some(p) = self.pin {
+            let pp = &sim().k.pipes[p];
+            if !self.input.is_empty() && pp.hist.len() >= self.input.len() && pp.w_open && pp.r_open {
+                violate("eof_late", "eof_late/at=read_returned_helpers_blocked".into(), format!("all {} input bytes were delivered, read() has returned and every helper thread is blocked, but the child's stdin is still open", self.input.len()));
+            }
+        }
+    }
+
     /// EOF right after the last input byte: no quiescent point of the parent
     /// between the write that completed the input and the close of the pipe.
     fn check_eof_late(&self) {
@@ -560,18 +590,60 @@ impl Model {
     }
 }
 
+/// One read() result, independent of which communicator produced it.
+pub struct ReadOut {
+    pub ok: bool,
+    pub out: Option<Vec<u8>>,
+    pub err: Option<Vec<u8>>,
+    pub kind: Option<std::io::ErrorKind>,
+    pub text: String,
+}
+
+pub trait CommLike: Sized {
+    fn read_n(&mut self) -> ReadOut;
+    fn lim_size(self, n: usize) -> Self;
+    fn lim_time(self, d: Duration) -> Self;
+}
+
+impl CommLike for Communicator {
+    fn read_n(&mut self) -> ReadOut {
+        match self.read() {
+            Ok((o, e)) => ReadOut { ok: true, out: o, err: e, kind: None, text: String::new() },
+            Err(ce) => ReadOut { ok: false, kind: Some(ce.kind()), text: format!("{:?}", ce.error), out: ce.capture.0, err: ce.capture.1 },
+        }
+    }
+    fn lim_size(self, n: usize) -> Self {
+        self.limit_size(n)
+    }
+    fn lim_time(self, d: Duration) -> Self {
+        self.limit_time(d)
+    }
+}
+
+impl CommLike for crate::commt::Communicator {
+    fn read_n(&mut self) -> ReadOut {
+        match self.read() {
+            Ok((o, e)) => ReadOut { ok: true, out: o, err: e, kind: None, text: String::new() },
+            Err(ce) => ReadOut { ok: false, kind: Some(ce.kind()), text: format!("{:?}", ce.error), out: ce.capture.0, err: ce.capture.1 },
+        }
+    }
+    fn lim_size(self, n: usize) -> Self {
+        self.limit_size(n)
+    }
+    fn lim_time(self, d: Duration) -> Self {
+        self.limit_time(d)
+    }
+}
+
 struct ReadCtx {
     size: Option<usize>,
     time: Option<u64>,
 }
 
 /// Evaluate one Communicator::read result.
-fn judge_read(m: &mut Model, rc: &ReadCtx, begin_seq: u64, res: &Result<(Option<Vec<u8>>, Option<Vec<u8>>), subprocess::CommunicateError>, idx: usize) -> bool {
+fn judge_read(m: &mut Model, rc: &ReadCtx, begin_seq: u64, res: &ReadOut, idx: usize) -> bool {
     let t = me();
-    let (out, err, is_ok, kind) = match res {
-        Ok((o, e)) => (o.clone(), e.clone(), true, None),
-        Err(ce) => (ce.capture.0.clone(), ce.capture.1.clone(), false, Some(ce.kind())),
-    };
+    let (out, err, is_ok, kind) = (res.out.clone(), res.err.clone(), res.ok, res.kind);
     let ctx = format!("read#{} (size={:?} time={:?})", idx, rc.size, rc.time);
     // presence mirrors "piped"
     if out.is_some() != m.cap_out || err.is_some() != m.cap_err {
@@ -647,13 +719,13 @@ fn limit_class(t: u64) -> &'static str {
     }
 }
 
-fn drive_reads(m: &mut Model, mut comm: Communicator, reads: &[ReadStep], faulty: bool) {
+fn drive_reads<C: CommLike>(m: &mut Model, mut comm: C, reads: &[ReadStep], faulty: bool) {
     let mut cur = ReadCtx { size: None, time: None };
     let mut idx = 0usize;
     let mut done = false;
-    let mut do_read = |m: &mut Model, comm: &mut Communicator, cur: &ReadCtx, idx: usize| -> (bool, bool) {
+    let mut do_read = |m: &mut Model, comm: &mut C, cur: &ReadCtx, idx: usize| -> (bool, bool) {
         let b = seq();
-        let r = lib("Communicator::read", || comm.read());
+        let r = lib("Communicator::read", || comm.read_n());
         match r {
             Err(p) => {
                 violate("panic", "panic/in=Communicator::read".into(), format!("Communicator::read panicked: {}", p));
@@ -662,17 +734,17 @@ fn drive_reads(m: &mut Model, mut comm: Communicator, reads: &[ReadStep], faulty
             Ok(res) => {
                 let nviol = sim().violations.len();
                 let fin = judge_read(m, cur, b, &res, idx);
-                let mut fatal = match &res {
-                    Err(e) if e.kind() != std::io::ErrorKind::TimedOut => true,
-                    _ => false,
-                };
+                let mut fatal = !res.ok && res.kind != Some(std::io::ErrorKind::TimedOut);
                 if fatal && !faulty {
-                    if let Err(e) = &res {
-                        // an error without any injected fault: legitimate only for a broken pipe on stdin
-                        if e.kind() != std::io::ErrorKind::BrokenPipe && sim().poisoned.is_none() {
-                            violate("unexpected_error", format!("unexpected_error/kind={:?}", e.kind()), format!("read#{} failed with {:?} although no fault was injected", idx, e.error));
-                        }
+                    // an error without any injected fault: legitimate only for a broken pipe on stdin
+                    if res.kind != Some(std::io::ErrorKind::BrokenPipe) && sim().poisoned.is_none() {
+                        violate("unexpected_error", format!("unexpected_error/kind={:?}", res.kind), format!("read#{} failed with {} although no fault was injected", idx, res.text));
                     }
+                }
+                if m.thread_variant {
+                    // quiescence for the thread-based variant: every helper is blocked or done
+                    crate::simrt::settle();
+                    m.check_eof_late_now();
                 }
                 if sim().violations.len() > nviol {
                     // a violated exchange is not driven any further
@@ -684,11 +756,11 @@ fn drive_reads(m: &mut Model, mut comm: Communicator, reads: &[ReadStep], faulty
     };
     for st in reads {
         if let Some(n) = st.size {
-            comm = comm.limit_size(n);
+            comm = comm.lim_size(n);
             cur.size = Some(n);
         }
         if let Some(t) = st.time_ns {
-            comm = comm.limit_time(Duration::from_nanos(t));
+            comm = comm.lim_time(Duration::from_nanos(t));
             cur.time = Some(t);
             m.any_time_limit = true;
         }
@@ -707,7 +779,7 @@ fn drive_reads(m: &mut Model, mut comm: Communicator, reads: &[ReadStep], faulty
         // drain: keep reading until all-empty; a time limit, once set, can only be replaced
         if cur.time.is_some() {
             let big = 400 * 86_400 * 1_000_000_000u64;
-            comm = comm.limit_time(Duration::from_nanos(big));
+            comm = comm.lim_time(Duration::from_nanos(big));
             cur.time = Some(big);
         }
         let mut guard = 0;
@@ -786,7 +858,11 @@ pub fn run(plan: &Plan, c: &CommPlan) -> FamOut {
         nontrivial: false,
         limit_cut: false,
         deadline_hot: false,
+        thread_variant: c.thread_variant,
     };
+    if c.thread_variant {
+        return run_threaded(plan, c, m, input, faulty);
+    }
     let path0 = format!("/bin/{}", c.progs[0]);
     match c.api {
         CommApi::Bytes | CommApi::Text | CommApi::Start => {
@@ -832,7 +908,7 @@ pub fn run(plan: &Plan, c: &CommPlan) -> FamOut {
                     match r {
                         Err(pm) => violate("panic", "panic/in=communicate_bytes".into(), format!("communicate_bytes panicked: {}", pm)),
                         Ok(Ok((o, e))) => {
-                            let res = Ok((o, e));
+                            let res = ReadOut { ok: true, out: o, err: e, kind: None, text: String::new() };
                             judge_read(&mut m, &ReadCtx { size: None, time: None }, b, &res, 0);
                             m.check_prefix(true, "communicate_bytes");
                             m.check_input(true, "communicate_bytes");
@@ -992,6 +1068,67 @@ pub fn run(plan: &Plan, c: &CommPlan) -> FamOut {
             }
         }
     }
+    fam_out(&m, plan)
+}
+
+/// The thread-based communicator (extracted from the cfg(windows) source):
+/// children are attached directly to simulated pipes.
+fn run_threaded(plan: &Plan, c: &CommPlan, mut m: Model, input: Option<Vec<u8>>, faulty: bool) -> FamOut {
+    use std::os::unix::io::FromRawFd;
+    let mk_pipe = || {
+        let mut f = [0i32; 2];
+        let r = unsafe { libc::pipe(f.as_mut_ptr()) };
+        assert_eq!(r, 0, "simulated pipe()");
+        (f[0], f[1])
+    };
+    let desc = |fd: i32| desc_of_parent_fd(fd).unwrap();
+    let mut child_fds: [Option<usize>; 3] = [None, None, None];
+    let mut to_close = vec![];
+    let mut f_in = None;
+    let mut f_out = None;
+    let mut f_err = None;
+    if c.stdin == StreamCfg::Pipe {
+        let (r, w) = mk_pipe();
+        child_fds[0] = Some(desc(r));
+        m.pin = pipe_of_desc(desc(r));
+        to_close.push(r);
+        f_in = Some(unsafe { std::fs::File::from_raw_fd(w) });
+    }
+    if c.stdout == StreamCfg::Pipe {
+        let (r, w) = mk_pipe();
+        child_fds[1] = Some(desc(w));
+        m.pout = pipe_of_desc(desc(w));
+        to_close.push(w);
+        f_out = Some(unsafe { std::fs::File::from_raw_fd(r) });
+    }
+    if c.stderr == StreamCfg::Pipe {
+        let (r, w) = mk_pipe();
+        child_fds[2] = Some(desc(w));
+        m.perr = pipe_of_desc(desc(w));
+        to_close.push(w);
+        f_err = Some(unsafe { std::fs::File::from_raw_fd(r) });
+    }
+    m.cap_out = f_out.is_some();
+    m.cap_err = f_err.is_some();
+    let _pid = sim().k.spawn_script(plan.programs[0].clone(), child_fds);
+    for fd in to_close {
+        unsafe {
+            libc::close(fd);
+        }
+    }
+    let input2 = if f_in.is_some() { Some(input.clone().unwrap_or_default()) } else { None };
+    let r = lib("commT::communicate", move || crate::commt::communicate(f_in, f_out, f_err, input2));
+    match r {
+        Err(pm) => violate("panic", "panic/in=commT::communicate".into(), pm),
+        Ok(comm) => drive_reads(&mut m, comm, &c.reads, faulty),
+    }
+    kill_all_children();
+    // every helper thread must come to an end once the communicator is gone
+    let n = sim().threads.len();
+    for u in 1..n {
+        crate::simrt::join(u as u8);
+    }
+    sim().k.probe("thread_variant_runs");
     fam_out(&m, plan)
 }
 
